@@ -643,6 +643,23 @@ func scenarios() []scenario {
 			return strings.Join(sel, ","), nil
 		}})
 	}
+	// the trees come from a gzip file made of two members (cat a.gz b.gz): all of them can be drawn
+	{
+		input := numberedTrees(6)
+		out = append(out, scenario{name: "gotree sample -n 1 -i on a two-member gzip file of 6 trees", cli: true, cells: uniform(tuples(6, 1)), run: func(seed int64) (string, error) {
+			dir := cli.Scratch()
+			args, _, files, _ := cli.Present("gz", input, "-i")
+			for n, c := range files {
+				cli.Write(dir, n, c)
+			}
+			r := cli.Run(dir, "", append([]string{"sample", "-n", "1", "--seed", strconv.FormatInt(seed, 10)}, args...)...)
+			if r.Code != 0 {
+				return "", fmt.Errorf("exit %d: %s", r.Code, r.Stderr)
+			}
+			ids, err := treeIDs(r.Stdout)
+			return strings.Join(ids, ","), err
+		}})
+	}
 	// streams: a tree with fewer tips than requested must not change what later trees get
 	{
 		six := []string{"t0", "t1", "t2", "t3", "t4", "t5"}
@@ -763,7 +780,7 @@ func scenarios() []scenario {
 }
 
 func TestC20Sweeps(t *testing.T) {
-	r := h.NewRecorder(t, "C20", "sweeps", "seed sweeps: for each scenario (ShuffleTips n=3,4, also on trees indexed and then grafted / pruned in memory; RotateNeighbors degree 3,4; RandomUniformBinaryTree unrooted n=4,5,6 and rooted n=3,4,5; `gotree sample -n k` for (n,k) in {(2,1),(3,1),(4,2),(5,2),(6,3),(5,5),(4,6)}; `sample --replace` (2,3),(3,2),(4,1),(11,1),(15,1); `prune -r --random 4` on a stream of trees with 6, 3 and 6 tips; `prune --random k` remove/keep; `shuffletips`; `generate uniformtree`) the outcome is recorded for N consecutive seeds (library: rand.Seed(s); commands: --seed s; N = 40000/600 quick, 400000/6000 thorough) and every outcome cell and every 'element i selected' event is tested against its exact probability with an exact two-sided binomial test (per-cell level 1e-13, run-level false alarm probability < 1e-9), plus the support check (every possible outcome occurs; unexpected outcomes are violations). Evaluations = seeds drawn; non-trivial = seeds of scenarios with n > k >= 1 and >= 3 outcome cells")
+	r := h.NewRecorder(t, "C20", "sweeps", "seed sweeps: for each scenario (ShuffleTips n=3,4, also on trees indexed and then grafted / pruned in memory; RotateNeighbors degree 3,4; RandomUniformBinaryTree unrooted n=4,5,6 and rooted n=3,4,5; `gotree sample -n k` for (n,k) in {(2,1),(3,1),(4,2),(5,2),(6,3),(5,5),(4,6)}; `sample --replace` (2,3),(3,2),(4,1),(11,1),(15,1); `sample -n 1` from a two-member gzip file; `prune -r --random 4` on a stream of trees with 6, 3 and 6 tips; `prune --random k` remove/keep; `shuffletips`; `generate uniformtree`) the outcome is recorded for N consecutive seeds (library: rand.Seed(s); commands: --seed s; N = 40000/600 quick, 400000/6000 thorough) and every outcome cell and every 'element i selected' event is tested against its exact probability with an exact two-sided binomial test (per-cell level 1e-13, run-level false alarm probability < 1e-9), plus the support check (every possible outcome occurs; unexpected outcomes are violations). Evaluations = seeds drawn; non-trivial = seeds of scenarios with n > k >= 1 and >= 3 outcome cells")
 	scs := scenarios()
 	var rc Case
 	if replaying, mine := r.ReplayCase(&rc); replaying {
